@@ -11,14 +11,14 @@ open Srad.Eon.P03
 handed over (the will registered most recently before it) -/
 theorem C03_nbirth_carries_will (cd : Nat) (acts : List Act) (s : St) (tr : List Obs)
     (h : runActs (init cd) acts = some (s, tr)) : nbirthBdOk none tr = true := by
-  sorry
+  exact (runActs_init h).2.1
 
 /-- the first will carries bdSeq 0; every later will carries exactly one more (255 wrapping to
 0) than the previous one, and is registered after `poll` returned an Offline and before `poll` is
 called again (or during the shutdown after a cancel, which forces the node offline) -/
 theorem C03_will_chain (cd : Nat) (acts : List Act) (s : St) (tr : List Obs)
     (h : runActs (init cd) acts = some (s, tr)) : willChainOk none false false tr = true := by
-  sorry
+  exact (runActs_init h).2.2.1
 
 /-- whenever the event-loop task is about to poll, or polling, in the main loop, the registered
 will carries the current bdSeq: a lost connection has been answered with the new will before
@@ -26,7 +26,7 @@ will carries the current bdSeq: a lost connection has been answered with the new
 theorem C03_will_current_when_polling (cd : Nat) (acts : List Act) (s : St) (tr : List Obs)
     (h : runActs (init cd) acts = some (s, tr)) (hp : s.loop = .sel ∨ s.loop = .polling) :
     s.will = some s.bdseq := by
-  sorry
+  exact will_current (runActs_init h).1 hp
 
 /-- bdSeq changes only when the node task processes the loss of an established connection, and
 then by exactly one (mod 256): rebirths, duplicate Online, Offline while offline, failed
@@ -35,7 +35,7 @@ theorem C03_bdseq_changes_only_on_loss (s s' : St) (a : Act) (o : List Obs)
     (h : runAct s a = some (s', o)) (hne : s'.bdseq ≠ s.bdseq) :
     (∃ dec k, a = .task .node dec k) ∧ s.node = .idle ∧ (∃ w, s.cs = some (.offline w)) ∧
     s.online = true ∧ s'.online = false ∧ s'.bdseq = (s.bdseq + 1) % 256 := by
-  sorry
+  exact bdseq_step h hne
 
 /-- the NDEATH of a graceful cancel carries the bdSeq of the registered will.
 `_partial`: in the window in which a connection loss is being processed (Offline returned by
@@ -43,7 +43,7 @@ theorem C03_bdseq_changes_only_on_loss (s s' : St) (a : Act) (o : List Obs)
 about to carry (candidate S1 of DESIGN.md Appendix C; the node is offline at that point). -/
 theorem C03_cancel_ndeath_partial (cd : Nat) (acts : List Act) (s : St) (tr : List Obs)
     (h : runActs (init cd) acts = some (s, tr)) : ndeathBdOk none false false tr = true := by
-  sorry
+  exact (runActs_init h).2.2.2
 
 /-! ### non-vacuity: a session, its loss, the new will, the next session -/
 example :
